@@ -17,7 +17,10 @@ ASSUMPTIONS = ["process_line(str) is the observation point (StreamProcessor.read
                "the installed OctoPrint/Python 3, an environment incompatibility of a component the plugin never wires in)",
                "line numbers / checksums are stripped before the command reaches the twin's hook; canonical upper-case "
                "command spellings only (OctoPrint itself does not recognise 'g1' or 'G01 ' differently from the stream parser)",
-               "commands are compared after stripping surrounding blanks"]
+               "commands are compared after stripping surrounding blanks",
+               "a command the live hooks forward unchanged (hook result None or [cmd], which mean the same to OctoPrint) may "
+               "come back either as the source line byte for byte or as the command terminated by the file's line ending; "
+               "non-command lines and unhandled @-commands must come back byte for byte"]
 
 LINES = ["G1 X50 Y40", "G1 X70 Y65 E1", "G0 X10 Y10", "G1 X55 Y35 E-1", "G1 E-1 F1800", "G1 E0 F1800",
          "G28 X Y ; home", "G92 E0 ; c", "M117 hi ; msg", "M204 S5", "N3 G1 X10 Y10*7 ; go", "  G1 X20 Y20", "", "   ",
@@ -70,6 +73,7 @@ def check_file(live, lines, eol, last_terminated):
         use_eol = file_eol or "\n"
         cmd = parts["command"]
         expect = None                     # None = the live hooks leave the line alone
+        unchanged_cmd = False             # the live hooks forward the command itself ([cmd] and None mean the same)
         if cmd.startswith("@"):
             pieces = cmd[1:].split(None, 1) if len(cmd) > 1 else []
             T.comm.sent = []
@@ -81,9 +85,21 @@ def check_file(live, lines, eol, last_terminated):
         elif linefile.is_gcode(cmd):
             g, sc = H.gcode_and_subcode_for_cmd(cmd)
             r = T.plugin.handleGcodeQueuing(T.comm, "queuing", cmd, None, g, sc, tags=set())
-            if r is not None:
-                expect = H.decode(cmd, r)
+            fwd = H.decode(cmd, r)
+            if fwd == [cmd]:
+                unchanged_cmd = True
+            else:
+                expect = fwd
         where = "line %d %r of %r (live state %s)" % (idx, line, lines, live)
+        if unchanged_cmd:
+            # either the source line byte for byte, or the command itself terminated by the file's line ending
+            ok = out == line or (isinstance(out, str) and out.endswith(use_eol) and
+                                 out[:-len(use_eol)].strip(" ") == cmd.strip(" ") and
+                                 "\n" not in out[:-len(use_eol)] and "\r" not in out[:-len(use_eol)])
+            if not ok:
+                return touched, ("C20 %s: the live hooks forward the command unchanged; the stream processor returned %r "
+                                 "(neither the line byte for byte nor the command terminated by %r)" % (where, out, use_eol))
+            continue
         if expect is None:
             if out != line:
                 return touched, "C20 untouched line is not reproduced byte for byte: %s came back as %r" % (where, out)
